@@ -67,6 +67,13 @@ class CancelStageHandler(StabilizeHandler[CancelStage]):
         """Inner handle logic to be retried."""
 
         def on_stage(stage: StageExecution) -> None:
+            # A canceled stage takes its unfinished synthetic stages with it:
+            # nobody else cancels them (CancelWorkflow only fans out to
+            # top-level stages), and a before-stage that was waiting for its
+            # turn or for a signal would stay NOT_STARTED / SUSPENDED for ever.
+            children = self.repository.get_synthetic_stages(message.execution_id, stage.id) or []
+            unfinished_children = [c for c in children if c is not None and not c.status.is_complete]
+
             # Check if stage is still in a cancellable state
             if stage.status.is_complete:
                 logger.debug(
@@ -75,6 +82,23 @@ class CancelStageHandler(StabilizeHandler[CancelStage]):
                     stage.id,
                     stage.status,
                 )
+                # ... also when a canceled child has already ended the stage
+                if stage.status.is_halt and unfinished_children:
+                    with self.repository.transaction(self.queue) as txn:
+                        if message.message_id:
+                            txn.mark_message_processed(
+                                message_id=message.message_id,
+                                handler_type="CancelStage",
+                                execution_id=message.execution_id,
+                            )
+                        for child in unfinished_children:
+                            txn.push_message(
+                                CancelStage(
+                                    execution_type=message.execution_type,
+                                    execution_id=message.execution_id,
+                                    stage_id=child.id,
+                                )
+                            )
                 return
 
             # Cancel all tasks that are still running
@@ -108,6 +132,15 @@ class CancelStageHandler(StabilizeHandler[CancelStage]):
                         message_id=message.message_id,
                         handler_type="CancelStage",
                         execution_id=message.execution_id,
+                    )
+
+                for child in unfinished_children:
+                    txn.push_message(
+                        CancelStage(
+                            execution_type=message.execution_type,
+                            execution_id=message.execution_id,
+                            stage_id=child.id,
+                        )
                     )
 
             if self.event_recorder:
